@@ -120,7 +120,11 @@ static inline void format_level1(const PageImage& img, Cell grid[25][40]) {
   for (int row = 0; row < 25; row++) {
     int fg = 7, bg = 0; bool flash = false, conceal = false, boxed = false, sep = false, hold = false, mosaic = false;
     int size = NORMAL;
-    int held = 0x20; bool held_sep = false; bool held_unc = false;
+    // EN 300 706 12.2 (Hold Mosaics): at the start of each row the held mosaic character is a space.
+    // held_unc marks the cases where the standard (reset to space on a size or alpha/mosaic change) and common
+    // practice (no reset) differ; they can only differ once a mosaic character of THIS row has been captured
+    // (held_set) - before that both readings show the start-of-row blank, so there is no leniency then.
+    int held = 0x20; bool held_sep = false; bool held_unc = false; bool held_set = false;
     bool dh_row = false; bool wide_skip = false;
     for (int col = 0; col < 40; col++) {
       int raw = (row == 0 && col < 8) ? 0x20 : (img.rows[row][col] & 0x7F);
@@ -139,10 +143,10 @@ static inline void format_level1(const PageImage& img, Cell grid[25][40]) {
       Cell c;
       c.fg = fg; c.bg = bg; c.flash = flash; c.conceal = conceal; c.boxed = boxed; c.size = size;
       if (raw < 0x20) {
-        if (hold && mosaic) { c.mosaic = held; c.separated = held_sep; c.held_uncertain = held_unc; if (held == 0x20) { c.mosaic = 0x20; } }
+        if (hold && mosaic) { c.mosaic = held; c.separated = held_sep; c.held_uncertain = held_unc && held_set; }
         else c.code = 0x20;
       } else if (mosaic && (raw & 0x20)) {
-        c.mosaic = raw; c.separated = sep; held = raw; held_sep = sep; held_unc = false;
+        c.mosaic = raw; c.separated = sep; held = raw; held_sep = sep; held_unc = false; held_set = true;
       } else {
         c.code = raw;
       }
